@@ -3,7 +3,7 @@
    to the abstract state, BY PROOF on the translated C text, relative to oracles for the line-buffer operations they call. *)
 From Coq Require Import List ZArith NArith Bool Lia.
 From NV Require Import Bytes GenConsts CLite CLiteProps GenCFuncs CLiteTac CLiteExt TrLbufBase TrLbufMarks ExAddrDefs TrExAddr ExCapAddr TrExAddrEx.
-From NV Require CapDefs CapDefs2 CapProps ExDefs.
+From NV Require CapDefs CapDefs2 CapProps ExDefs ExProps.
 Import ListNotations.
 Local Open Scope Z_scope.
 
@@ -147,6 +147,10 @@ Definition arg_byte (k : Z) : expr := ELoad (Some I8) (EPtrAdd 1 (ELocal 2) (ECo
 Definition reg_e : expr :=
   ECond (EBin ONe I32 (ECast I32 (arg_byte 0)) (EConst 92)) (ECast I32 (ECast U8 (arg_byte 0)))
         (EBin OOr I32 (EConst 128) (ECast I32 (ECast U8 (arg_byte 1)))).
+Lemma sx_eqb_97 : forall c, (c < 256)%N -> (wrap I32 (wrap I8 (Z.of_N c)) =? 97) = (c =? 97)%N.
+Proof. byte_fact. Qed.
+Lemma sx_ne_99 : forall c, (c < 256)%N -> negb (wrap I32 (wrap I8 (Z.of_N c)) =? 99) = negb (c =? 99)%N.
+Proof. byte_fact. Qed.
 Lemma sx_ne_92 : forall c, (c < 256)%N -> negb (wrap I32 (wrap I8 (Z.of_N c)) =? 92) = negb (c =? 92)%N.
 Proof. byte_fact. Qed.
 Lemma eval_reg call v0 v1 ba rest mm arg : str_at mm ba arg -> nonul arg ->
@@ -263,7 +267,10 @@ Definition zero_e (kb ke : nat) : expr := ECall X_ex_zero [ELocal 0; ld kb; ld k
 Definition ret1 : stmt := SReturn (Some (EConst 1)).
 Definition guard_rz (kb ke : nat) : stmt := SIf (EOrElse (region_e kb ke) (zero_e kb ke)) ret1 SSkip.
 Definition guard_rzl : stmt := SIf (EOrElse (EOrElse (region_e 4 5) (zero_e 4 5)) (ELNot len_e)) ret1 SSkip.
+Definition clamp_e (ke kn : nat) : expr :=
+  max_e (EConst 0) (min_e (EBin OSub I32 len_e (EConst 1)) (EBin OSub I32 (EBin OSub I32 (EBin OAdd I32 (ld ke) len_e) (ELocal kn)) (EConst 1))).
 Definition nz_e (kb ke : nat) : expr := EOrElse (EBin ONe I32 (ld kb) (EConst 0)) (EBin ONe I32 (ld ke) (EConst 0)).
+Definition guard_rn : stmt := SIf (EAndAlso (region_e 4 5) (nz_e 4 5)) ret1 SSkip.
 
 Section Cmds.
   Variable ext : nat -> list val -> mem -> res (val * mem).
@@ -295,6 +302,22 @@ Section Cmds.
     intros Hx Ht Hb He Hed. unfold pure in *. rewrite exec_expr. cbn [eval]. rewrite (eval_xb ext fuel D L mx bl Hx). cbn [bind].
     rewrite Ht. cbn [bind]. rewrite Hb. cbn [bind]. rewrite He. cbn [bind memm locals].
     rewrite (cx_ext ext fuel D _ _ _ x_lbuf_edit_none), Hed. reflexivity.
+  Qed.
+
+  (* ---- xrow = MAX(0, MIN(lbuf_len(xb) - 1, end + lbuf_len(xb) - n - 1)): the current line after text was added (fix 7b90d84: never -1) *)
+  Lemma pure_clamp D L m5 bl be ke kn e' n n2 : nth_error L ke = Some (VPtr be 0) -> nth_error L kn = Some (VInt n) ->
+    nth_error m5 be = Some [VInt e'] -> len_view m5 bl n2 -> 0 <= e' -> 0 <= n -> iok n -> 0 <= n2 -> iok (e' + n2) ->
+    pure (callx ext cprog fuel (S D)) (clamp_e ke kn) (mkst L m5) (Z.max 0 (Z.min (n2 - 1) (e' + n2 - n - 1))).
+  Proof.
+    intros Hke Hkn He Hl He0 Hn0 Hin Hn2 Hfit.
+    assert (In2 : iok n2) by (destruct Hl as (g & l & _ & _ & _ & _ & I5); exact I5).
+    assert (Ie : iok e') by (unfold TrExAddr.int_ok in *; lia).
+    pose proof (eval_len ext fuel D L m5 bl n2 Hl) as Pl. fold (pure (callx ext cprog fuel (S D)) len_e (mkst L m5) n2) in Pl.
+    unfold clamp_e. apply pure_max; [apply pure_const|]. apply pure_min.
+    - apply pure_sub; [exact Pl|apply pure_const|unfold TrExAddr.int_ok in *; lia].
+    - apply pure_sub; [|apply pure_const|unfold TrExAddr.int_ok in *; lia].
+      apply pure_sub; [|apply (pure_local _ kn L m5 n Hkn)|unfold TrExAddr.int_ok in *; lia].
+      apply pure_add; [apply (pure_ld _ ke L m5 be e' Hke He Ie)|exact Pl|exact Hfit].
   Qed.
 
   (* ---- what the memory is after ex_region returned: beg, end and xrow hold the model's values, every other block the command looks at is as before *)
@@ -391,6 +414,13 @@ Section Cmds.
       rewrite eval_zero_e. xs. destruct (ExDefs.ex_zero s b e); xs; [reflexivity|].
       rewrite (eval_len ext fuel _ L m1 bl _ ar_len). xs. rewrite negb_involutive. destruct (ExDefs.slen st =? 0); xs; reflexivity.
     Qed.
+    (* if (ex_region(loc, &beg, &end) && (beg != 0 || end != 0)) return 1;   -- the commands that add text accept address 0 (fix 6c95ca8) *)
+    Lemma exec_guard_rn : exec cx fuel guard_rn (mkst L mm)
+      = if bad && (negb (b =? 0) || negb (e =? 0)) then OReturn (VInt 1) (mkst L m1) else ONormal (mkst L m1).
+    Proof.
+      unfold guard_rn, ret1. rewrite exec_if. cbn [eval]. rewrite eval_region_e. xs. destruct bad; xs; [|reflexivity].
+      rewrite eval_nz_e. xs. destruct (negb (b =? 0) || negb (e =? 0)); xs; reflexivity.
+    Qed.
 
     (* ================================================================ ec_delete *)
     (* ex_yank(REG(arg), beg, end); lbuf_edit(xb, NULL, beg, end); xrow = MAX(0, MIN(beg, lbuf_len(xb) - 1)); return 0; *)
@@ -447,6 +477,114 @@ Section Cmds.
       unfold del_xrow. rewrite exec_seq, (exec_set_xrow cx fuel _ L m5 _ x5 P) by (try assumption; pose proof (ar_ib m1 AR); unfold TrExAddr.int_ok in *; lia).
       unfold ret0. rewrite exec_return. reflexivity.
     Qed.
+
+    (* ================================================================ ec_yank: ex_yank(REG(arg), beg, end); return 0; *)
+    Definition yank_rest : stmt := SSeq guard_rzl (SSeq yank_s ret0).
+    Lemma ec_yank_shape : fn_body cf_ec_yank = SSeq frame2 yank_rest.
+    Proof. reflexivity. Qed.
+    Lemma yank_body_fail : bad || ExDefs.ex_zero s b e || (ExDefs.slen st =? 0) = true ->
+      exec cx fuel yank_rest (mkst L mm) = OReturn (VInt 1) (mkst L m1).
+    Proof. intro H. unfold yank_rest. rewrite exec_seq, exec_guard_rzl, H. reflexivity. Qed.
+    Lemma yank_body_ok pb m2 m3 : bad || ExDefs.ex_zero s b e || (ExDefs.slen st =? 0) = false -> yanked pb m2 m3 ->
+      exec cx fuel yank_rest (mkst L mm) = OReturn (VInt 0) (mkst L (upd m3 pb [])).
+    Proof.
+      intros H Y. unfold yank_rest. rewrite exec_seq, exec_guard_rzl, H. rewrite exec_seq, (exec_yank_s pb m2 m3 Y).
+      unfold ret0. rewrite exec_return. reflexivity.
+    Qed.
+
+    (* ================================================================ ec_insert (a, i, c) *)
+    (* if (cmd[0] == 'a') if (end > beg && beg + 1 <= lbuf_len(xb)) beg++;  if (cmd[0] != 'c') end = beg;  n = lbuf_len(xb);
+       lbuf_edit(xb, txt, beg, end);  xrow = MAX(0, MIN(lbuf_len(xb) - 1, end + lbuf_len(xb) - n - 1));  return 0; *)
+    Definition cmd0_e : expr := ECast I32 (ELoad (Some I8) (EPtrAdd 1 (ELocal 1) (EConst 0))).
+    Definition app_s : stmt :=
+      SIf (EBin OEq I32 cmd0_e (EConst 97))
+          (SIf (EAndAlso (EBin OGt I32 (ld 5) (ld 4)) (EBin OLe I32 (EBin OAdd I32 (ld 4) (EConst 1)) len_e)) (SExpr (EIncMem true (Some I32) 1 (ELocal 4))) SSkip) SSkip.
+    Definition noc_s : stmt := SIf (EBin ONe I32 cmd0_e (EConst 99)) (SExpr (EStore (Some I32) (ELocal 5) (ld 4))) SSkip.
+    Definition setn_s (k : nat) : stmt := SExpr (ESetLocal k len_e).
+    Definition clamp_s (ke kn : nat) : stmt := SExpr (EStore (Some I32) (EGlob G_xrow) (clamp_e ke kn)).
+    Definition insert_rest : stmt :=
+      SSeq guard_rn (SSeq app_s (SSeq noc_s (SSeq (setn_s 6) (SSeq (SExpr (ECall X_lbuf_edit [xb_e; ELocal 3; ld 4; ld 5])) (SSeq (clamp_s 5 6) ret0))))).
+    Lemma ec_insert_shape : fn_body cf_ec_insert = SSeq frame2 insert_rest.
+    Proof. reflexivity. Qed.
+
+    Variables (bc : nat) (cmd : bytes) (v6 : val) (rest' : list val).
+    Hypothesis Hv1 : v1 = VPtr bc 0.
+    Hypothesis Hrest : rest = v6 :: rest'.
+    Hypothesis Hcmd : str_at m1 bc cmd.
+    Hypothesis Hncmd : nonul cmd.
+    Hypothesis Nbc : bc <> bb /\ bc <> be.
+    Hypothesis Hv3 : v3 <> VUndef.
+    (* the position rule of the model: a appends behind a non-empty range (0a: before the first line, fix e93d764), i and a replace nothing *)
+    Definition ins_b : Z := if (hd0 cmd =? 97)%N && (b <? e) && (b + 1 <=? ExDefs.slen st) then b + 1 else b.
+    Definition ins_e : Z := if (hd0 cmd =? 99)%N then e else ins_b.
+    Lemma eval_cmd0 mx : str_at mx bc cmd -> eval cx cmd0_e (mkst L mx) = Ok (VInt (wrap I32 (wrap I8 (Z.of_N (hd0 cmd)))), mkst L mx).
+    Proof.
+      intro H. unfold cmd0_e. rewrite Hv1. xs. rewrite (load_str mx bc cmd (0 + 1 * 0) 0 H eq_refl ltac:(lia)). xs.
+      replace (nthb cmd 0) with (hd0 cmd) by (destruct cmd; reflexivity). reflexivity.
+    Qed.
+    Lemma hd0_lt256 : (hd0 cmd < 256)%N.
+    Proof. replace (hd0 cmd) with (nthb cmd 0) by (destruct cmd; reflexivity). apply nthb_lt256, nonul_lt256, Hncmd. Qed.
+    Lemma bb_ne_be : bb <> be.
+    Proof. destruct Hdist as (D1 & _). exact D1. Qed.
+    Lemma exec_app_s : (b < e -> iok (b + 1)) -> exec cx fuel app_s (mkst L m1) = ONormal (mkst L (upd m1 bb [VInt ins_b])).
+    Proof.
+      intro Hfit. unfold app_s, ins_b. rewrite exec_if. cbn [eval]. rewrite (eval_cmd0 m1 Hcmd). xs. rewrite (sx_eqb_97 _ hd0_lt256).
+      destruct (hd0 cmd =? 97)%N; xs; [|rewrite upd_self by exact (ar_beg m1 AR); reflexivity].
+      rewrite (pure_end m1 (ar_end m1 AR)). xs. rewrite (pure_beg m1 (ar_beg m1 AR)). xs.
+      destruct (Z.ltb_spec b e) as [Hlt|Hge]; xs; [|rewrite upd_self by exact (ar_beg m1 AR); reflexivity].
+      rewrite (pure_beg m1 (ar_beg m1 AR)). xs. rewrite (int_ok_chk _ (Hfit Hlt)). xs.
+      rewrite (eval_len ext fuel _ L m1 bl _ ar_len). xs.
+      destruct (b + 1 <=? ExDefs.slen st); xs; [|rewrite upd_self by exact (ar_beg m1 AR); reflexivity].
+      rewrite (load1 m1 bb _ (ar_beg m1 AR)). xs. rewrite (int_ok_wrap _ (ar_ib m1 AR)), (int_ok_chk _ (Hfit Hlt)). xs.
+      rewrite (store1 m1 bb _ _ (ar_beg m1 AR)). reflexivity.
+    Qed.
+    Lemma exec_noc_s : iok ins_b -> exec cx fuel noc_s (mkst L (upd m1 bb [VInt ins_b])) = ONormal (mkst L (upd (upd m1 bb [VInt ins_b]) be [VInt ins_e])).
+    Proof.
+      intro Hi. pose proof bb_ne_be as Nbe. destruct Nbc as (N1 & N2).
+      assert (Lbb : (bb < length m1)%nat) by (apply nth_error_Some; rewrite (ar_beg m1 AR); discriminate).
+      assert (Hc2 : str_at (upd m1 bb [VInt ins_b]) bc cmd) by (apply str_at_upd_other; assumption).
+      assert (Hb2 : nth_error (upd m1 bb [VInt ins_b]) bb = Some [VInt ins_b]) by (apply mem_upd_same; exact Lbb).
+      assert (He2 : nth_error (upd m1 bb [VInt ins_b]) be = Some [VInt e]) by (rewrite mem_upd_other by (auto using not_eq_sym); exact (ar_end m1 AR)).
+      unfold noc_s, ins_e. rewrite exec_if. cbn [eval]. rewrite (eval_cmd0 _ Hc2). xs. rewrite (sx_ne_99 _ hd0_lt256).
+      destruct (hd0 cmd =? 99)%N; xs; [rewrite (upd_self _ be _ He2); reflexivity|].
+      rewrite (pure_ld cx 4 L _ bb ins_b eq_refl Hb2 Hi). xs. rewrite (int_ok_wrap _ Hi), (store1 _ be _ _ He2). reflexivity.
+    Qed.
+    Lemma get_local_ok Lx mx k v : nth_error Lx k = Some v -> v <> VUndef -> get_local (mkst Lx mx) k = Ok v.
+    Proof. intros H N. unfold get_local. cbn [locals]. rewrite H. destruct v; [congruence|reflexivity|reflexivity]. Qed.
+    Local Notation mb := (upd (upd m1 bb [VInt ins_b]) be [VInt ins_e]).
+    Local Notation L6 := (VPtr bs 0 :: v1 :: v2 :: v3 :: VPtr bb 0 :: VPtr be 0 :: VInt (ExDefs.slen st) :: rest').
+    Lemma mb_view : len_view mb bl (ExDefs.slen st) /\ nth_error mb bb = Some [VInt ins_b] /\ nth_error mb be = Some [VInt ins_e].
+    Proof.
+      destruct Hdist as (D1 & D2 & D3 & D4 & D5 & D6 & D7 & D8 & D9 & D10 & D11).
+      assert (Lbb : (bb < length m1)%nat) by (apply nth_error_Some; rewrite (ar_beg m1 AR); discriminate).
+      assert (Lbe : (be < length (upd m1 bb [VInt ins_b]))%nat) by (rewrite upd_length by exact Lbb; apply nth_error_Some; rewrite (ar_end m1 AR); discriminate).
+      destruct ar_len as (g & l & H1 & H2 & H3 & H4 & H5).
+      split; [exists g, l; rewrite !mem_upd_other by (first [exact Lbb|exact Lbe|apply not_eq_sym; assumption]); split; [exact H1|split; [exact H2|split; [exact H3|split; [exact H4|exact H5]]]]|].
+      split; [rewrite mem_upd_other by (first [exact Lbe|assumption]); apply mem_upd_same; exact Lbb|apply mem_upd_same; exact Lbe].
+    Qed.
+    Lemma insert_body_fail : bad && (negb (b =? 0) || negb (e =? 0)) = true ->
+      exec cx fuel insert_rest (mkst L mm) = OReturn (VInt 1) (mkst L m1).
+    Proof. intro H. unfold insert_rest. rewrite exec_seq, exec_guard_rn, H. reflexivity. Qed.
+    Lemma insert_body_ok u' m5 n2 x5 : bad && (negb (b =? 0) || negb (e =? 0)) = false ->
+      (b < e -> iok (b + 1)) -> iok ins_b -> 0 <= ins_e -> iok (ins_e + n2) -> 0 <= n2 ->
+      ext X_lbuf_edit [VPtr bl 0; v3; VInt ins_b; VInt ins_e] mb = Ok (u', m5) ->
+      nth_error m5 be = Some [VInt ins_e] -> len_view m5 bl n2 -> cell_at m5 G_xrow x5 ->
+      exec cx fuel insert_rest (mkst L mm)
+      = OReturn (VInt 0) (mkst L6 (upd m5 G_xrow [VInt (Z.max 0 (Z.min (n2 - 1) (ins_e + n2 - ExDefs.slen st - 1)))])).
+    Proof.
+      intros G Hfit Hib He0' Hfit2 Hn2 Hed He5 Hl5 Hx5. destruct mb_view as (V1 & V2 & V3).
+      assert (Hie : iok ins_e) by (unfold ins_e; destruct (hd0 cmd =? 99)%N; [exact (ar_ie m1 AR)|exact Hib]).
+      assert (Hn0 : 0 <= ExDefs.slen st) by (unfold ExDefs.slen, ExDefs.llen; lia).
+      unfold insert_rest. rewrite exec_seq, exec_guard_rn, G. rewrite exec_seq, (exec_app_s Hfit). rewrite exec_seq, (exec_noc_s Hib).
+      unfold setn_s. rewrite exec_seq, exec_expr. cbn [eval]. rewrite (eval_len ext fuel _ L mb bl _ V1). cbn [bind]. rewrite Hrest. cbn [set_local locals set_nth memm bind].
+      rewrite exec_seq.
+      rewrite (exec_edit_s (S (S (S d))) L6 mb bl (ELocal 3) (ld 4) (ld 5) v3 ins_b ins_e u' m5 (len_xb _ _ _ V1)
+                 ltac:(cbn [eval]; rewrite (get_local_ok L6 mb 3 v3 eq_refl Hv3); reflexivity)
+                 (pure_ld cx 4 L6 mb bb ins_b eq_refl V2 Hib) (pure_ld cx 5 L6 mb be ins_e eq_refl V3 Hie) Hed).
+      pose proof (pure_clamp (S (S (S d))) L6 m5 bl be 5 6 ins_e (ExDefs.slen st) n2 eq_refl eq_refl He5 Hl5 He0' Hn0 (cp_il _ _ _ _ _ _ _ Hpre) Hn2 Hfit2) as P.
+      unfold clamp_s. rewrite exec_seq, (exec_set_xrow cx fuel _ L6 m5 _ x5 P) by (try assumption; unfold TrExAddr.int_ok in *; lia).
+      unfold ret0. rewrite exec_return. reflexivity.
+    Qed.
   End AfterRegion.
 
   (* ================================================================ the commands as functions of cprog *)
@@ -461,6 +599,24 @@ Section Cmds.
   Proof.
     rewrite callx_S. change (nth_error cprog F_ec_delete) with (Some cf_ec_delete). cbv beta iota.
     change (fn_nparams cf_ec_delete) with 4%nat. change (fn_nlocals cf_ec_delete) with 6%nat. rewrite ec_delete_shape.
+    cbn [length Nat.eqb Nat.sub repeat app]. rewrite exec_seq, exec_frame2. reflexivity.
+  Qed.
+
+  Definition ec_yank_run D (a0 a1 a2 a3 : val) (m : mem) (ve : val) : res (val * mem) :=
+    run_of (exec (callx ext cprog fuel D) fuel yank_rest (mkst [a0; a1; a2; a3; VPtr (length m) 0; VPtr (S (length m)) 0] (frame_mem m VUndef ve))).
+  Lemma ec_yank_entry D a0 a1 a2 a3 m : callx ext cprog fuel (S D) F_ec_yank [a0; a1; a2; a3] m = ec_yank_run D a0 a1 a2 a3 m VUndef.
+  Proof.
+    rewrite callx_S. change (nth_error cprog F_ec_yank) with (Some cf_ec_yank). cbv beta iota.
+    change (fn_nparams cf_ec_yank) with 4%nat. change (fn_nlocals cf_ec_yank) with 6%nat. rewrite ec_yank_shape.
+    cbn [length Nat.eqb Nat.sub repeat app]. rewrite exec_seq, exec_frame2. reflexivity.
+  Qed.
+
+  Definition ec_insert_run D (a0 a1 a2 a3 : val) (m : mem) (ve : val) : res (val * mem) :=
+    run_of (exec (callx ext cprog fuel D) fuel insert_rest (mkst [a0; a1; a2; a3; VPtr (length m) 0; VPtr (S (length m)) 0; VUndef] (frame_mem m VUndef ve))).
+  Lemma ec_insert_entry D a0 a1 a2 a3 m : callx ext cprog fuel (S D) F_ec_insert [a0; a1; a2; a3] m = ec_insert_run D a0 a1 a2 a3 m VUndef.
+  Proof.
+    rewrite callx_S. change (nth_error cprog F_ec_insert) with (Some cf_ec_insert). cbv beta iota.
+    change (fn_nparams cf_ec_insert) with 4%nat. change (fn_nlocals cf_ec_insert) with 7%nat. rewrite ec_insert_shape.
     cbn [length Nat.eqb Nat.sub repeat app]. rewrite exec_seq, exec_frame2. reflexivity.
   Qed.
 
@@ -544,6 +700,105 @@ Section Cmds.
                    ltac:(unfold ExDefs.slen, ExDefs.llen; lia) Hx5).
         reflexivity.
     Qed.
+
+    (* ---- ec_yank *)
+    Lemma model_yank arg : ExDefs.ec_yank rvalid rfind s arg st =
+      if bad || ExDefs.ex_zero s b e || (ExDefs.slen s1 =? 0) then (s1, 1) else (ExDefs.ex_yank s1 (ExDefs.REG arg) b e, 0).
+    Proof. unfold ExDefs.ec_yank. destruct R as [[[bad0 b0] e0'] s0]. reflexivity. Qed.
+    (* y: the guard of d, then lbuf_cp(xb, beg, end), reg_put(REG(arg), buf, 1), free(buf); xrow is what ex_region left, the buffer is not touched *)
+    Theorem tr_ec_yank vcmd ba arg vtxt : str_at m ba arg -> nonul arg -> ba <> G_xrow ->
+      let M := ExDefs.ec_yank rvalid rfind s arg st in
+      exists m1, callx ext cprog fuel D F_ex_region [VPtr bs 0; VPtr bb 0; VPtr be 0] mf = Ok (VInt (b2z bad), m1) /\
+        cell_at m1 G_xrow (ExDefs.xrow (fst M)) /\ ExDefs.lb (fst M) = ExDefs.lb st /\
+        (snd M <> 0 -> ec_yank_run D (VPtr bs 0) vcmd (VPtr ba 0) vtxt m (VInt e0) = Ok (VInt (snd M), m1) /\ snd M = 1) /\
+        (snd M = 0 -> forall pb m2 u m3 c blk,
+           ext X_lbuf_cp [VPtr bl 0; VInt b; VInt e] m1 = Ok (VPtr pb 0, m2) ->
+           ext X_reg_put [VInt (Z.of_N (ExDefs.REG arg)); VPtr pb 0; VInt 1] m2 = Ok (u, m3) ->
+           nth_error m3 pb = Some (c :: blk) -> keeps [G_bufs; bb; be] m1 (upd m3 pb []) ->
+           ec_yank_run D (VPtr bs 0) vcmd (VPtr ba 0) vtxt m (VInt e0) = Ok (VInt 0, upd m3 pb [])).
+    Proof.
+      intros Harg Hnarg Nba M. destruct final_region as (m1 & AR). exists m1. split; [exact (ar_call _ _ _ _ _ _ _ _ _ _ AR)|].
+      pose proof (pre_le _ _ _ _ _ _ _ _ (mem_le_frame m VUndef (VInt e0)) Hpre) as Pf.
+      assert (Es : ExDefs.slen s1 = ExDefs.slen st) by (rewrite (ar_st _ _ _ _ _ _ _ _ _ _ AR); reflexivity).
+      assert (El : ExDefs.lb s1 = ExDefs.lb st) by (rewrite (ar_st _ _ _ _ _ _ _ _ _ _ AR); reflexivity).
+      unfold M. rewrite (model_yank arg), Es. unfold ec_yank_run.
+      destruct (bad || ExDefs.ex_zero s b e || (ExDefs.slen st =? 0)) eqn:G; cbn [fst snd].
+      - split; [exact (ar_xrow _ _ _ _ _ _ _ _ _ _ AR)|]. split; [exact El|]. split; [|intro H; discriminate H]. intros _.
+        rewrite (yank_body_fail rvalid rfind st mf bs bl s gbufs lblk bb be VUndef e0 d Pf (frame_beg m _ _) (frame_end m _ _) final_dist Hf Hz m1 AR vcmd (VPtr ba 0) vtxt [] G).
+        split; reflexivity.
+      - split; [exact (ar_xrow _ _ _ _ _ _ _ _ _ _ AR)|]. split; [exact El|]. split; [intro H; exfalso; apply H; reflexivity|].
+        intros _ pb m2 u m3 c blk Hcp Hput Hlive Hk.
+        rewrite (yank_body_ok rvalid rfind st mf bs bl s gbufs lblk bb be VUndef e0 d Pf (frame_beg m _ _) (frame_end m _ _) final_dist Hf Hz m1 AR
+                   vcmd (VPtr ba 0) vtxt [] ba arg eq_refl (final_old m1 ba _ AR Harg Nba) Hnarg pb m2 m3 G
+                   (mk_yanked rvalid rfind st bl s bb be m1 arg pb m2 m3 Hcp (ex_intro _ u Hput) (ex_intro _ c (ex_intro _ blk Hlive)) Hk)).
+        reflexivity.
+    Qed.
+
+    (* ---- ec_insert *)
+    Lemma final_bounds m1 : after_region rvalid rfind st mf bs s bb be d m1 -> bad && (negb (b =? 0) || negb (e =? 0)) = false ->
+      0 <= b <= e /\ e <= ExDefs.slen st.
+    Proof.
+      intros AR G. assert (Es : ExDefs.slen s1 = ExDefs.slen st) by (rewrite (ar_st _ _ _ _ _ _ _ _ _ _ AR); reflexivity).
+      assert (Hn0 : 0 <= ExDefs.slen st) by (unfold ExDefs.slen, ExDefs.llen; lia).
+      revert G Es. destruct R as [[[bad0 b0] e0'] s0] eqn:ER. cbn [fst snd]. intros G Es. destruct bad0.
+      - cbn [andb] in G. destruct (Z.eqb_spec b0 0); [|discriminate G]. destruct (Z.eqb_spec e0' 0); [|discriminate G]. lia.
+      - pose proof (ExProps.region_bounds rvalid rfind s st b0 e0' s0 ER) as (B1 & B2 & _). lia.
+    Qed.
+    Lemma ins_positions cmd :
+      ins_b rvalid rfind st s cmd = (if (hd0 cmd =? 97)%N && (b <? e) && (b + 1 <=? ExDefs.slen st) then b + 1 else b) /\
+      ins_e rvalid rfind st s cmd = (if (hd0 cmd =? 99)%N then e else ins_b rvalid rfind st s cmd).
+    Proof. split; reflexivity. Qed.
+    Lemma model_insert cmd txt : ExDefs.ec_insert rvalid rfind s cmd txt st =
+      if bad && (negb (b =? 0) || negb (e =? 0)) then (s1, 1)
+      else let b' := if (hd0 cmd =? 97)%N && (b <? e) && (b + 1 <=? ExDefs.slen s1) then b + 1 else b in
+           let e' := if (hd0 cmd =? 99)%N then e else b' in
+           let s2 := ExDefs.edit s1 txt b' e' in
+           (ExDefs.set_xrow s2 (Z.max 0 (Z.min (ExDefs.slen s2 - 1) (e' + ExDefs.slen s2 - ExDefs.slen s1 - 1))), 0).
+    Proof. unfold ExDefs.ec_insert. destruct R as [[[bad0 b0] e0'] s0]. reflexivity. Qed.
+    (* a, i, c: the address is resolved; rejected unless it is address 0 (fix 6c95ca8); the position rule: `a` moves beg behind a non-empty
+       range (so 0a inserts before the first line, fix e93d764), only `c` keeps end; lbuf_edit(xb, txt, beg', end') is called with the
+       model's positions, in the memory where beg and end hold them; xrow = MAX(0, MIN(len' - 1, end' + len' - len - 1)) is the model's
+       current line (fix 7b90d84: 0, not -1, when an empty text block goes to the top).  txt is the model's text block; what the
+       oracle does with the pointer vtxt is its own matter: the hypothesis is that the buffer it leaves has the model's length *)
+    Theorem tr_ec_insert bc cmd varg vtxt txt : str_at m bc cmd -> nonul cmd -> bc <> G_xrow -> vtxt <> VUndef ->
+      let M := ExDefs.ec_insert rvalid rfind s cmd txt st in
+      let b' := ins_b rvalid rfind st s cmd in let e' := ins_e rvalid rfind st s cmd in
+      exists m1, callx ext cprog fuel D F_ex_region [VPtr bs 0; VPtr bb 0; VPtr be 0] mf = Ok (VInt (b2z bad), m1) /\
+        (snd M <> 0 -> ec_insert_run D (VPtr bs 0) (VPtr bc 0) varg vtxt m (VInt e0) = Ok (VInt (snd M), m1) /\
+                       snd M = 1 /\ cell_at m1 G_xrow (ExDefs.xrow (fst M)) /\ ExDefs.lb (fst M) = ExDefs.lb st) /\
+        (snd M = 0 -> ExDefs.lb (fst M) = ExDefs.lbuf_edit txt (Z.to_nat b') (Z.to_nat e') (ExDefs.lb st) /\ forall u' m5 x5,
+           ext X_lbuf_edit [VPtr bl 0; vtxt; VInt b'; VInt e'] (upd (upd m1 bb [VInt b']) be [VInt e']) = Ok (u', m5) ->
+           nth_error m5 be = Some [VInt e'] -> len_view m5 bl (ExDefs.slen (fst M)) -> cell_at m5 G_xrow x5 ->
+           iok (e' + ExDefs.slen (fst M)) ->
+           ec_insert_run D (VPtr bs 0) (VPtr bc 0) varg vtxt m (VInt e0) = Ok (VInt 0, upd m5 G_xrow [VInt (ExDefs.xrow (fst M))])).
+    Proof.
+      intros Hcmd Hncmd Nbc Hvt M b' e'. destruct final_region as (m1 & AR). exists m1. split; [exact (ar_call _ _ _ _ _ _ _ _ _ _ AR)|].
+      pose proof (pre_le _ _ _ _ _ _ _ _ (mem_le_frame m VUndef (VInt e0)) Hpre) as Pf.
+      assert (Es : ExDefs.slen s1 = ExDefs.slen st) by (rewrite (ar_st _ _ _ _ _ _ _ _ _ _ AR); reflexivity).
+      assert (El : ExDefs.lb s1 = ExDefs.lb st) by (rewrite (ar_st _ _ _ _ _ _ _ _ _ _ AR); reflexivity).
+      assert (Lbc : (bc < length m)%nat) by (apply nth_error_Some; unfold str_at in Hcmd; congruence).
+      unfold M. rewrite (model_insert cmd txt), Es. unfold ec_insert_run. fold b' e'.
+      destruct (bad && (negb (b =? 0) || negb (e =? 0))) eqn:G; cbn [fst snd].
+      - split; [|intro H; discriminate H]. intros _.
+        rewrite (insert_body_fail rvalid rfind st mf bs s bb be d m1 AR (VPtr bc 0) varg vtxt [VUndef] G).
+        split; [reflexivity|]. split; [reflexivity|]. split; [exact (ar_xrow _ _ _ _ _ _ _ _ _ _ AR)|exact El].
+      - split; [intro H; exfalso; apply H; reflexivity|]. intros _.
+        change (if (hd0 cmd =? 97)%N && (b <? e) && (b + 1 <=? ExDefs.slen st) then b + 1 else b) with b'.
+        change (if (hd0 cmd =? 99)%N then e else b') with e'. cbv zeta.
+        cbn [ExDefs.slen ExDefs.set_xrow ExDefs.lb ExDefs.xrow ExDefs.edit ExDefs.set_lb]. rewrite El.
+        split; [reflexivity|]. intros u' m5 x5 Hed He5 Hl5 Hx5 Hfit.
+        destruct (final_bounds m1 AR G) as ((B1 & B2) & B3). pose proof (cp_il _ _ _ _ _ _ _ Hpre) as Il.
+        assert (Hb' : b <= b' <= b + 1 /\ b' <= ExDefs.slen st).
+        { unfold b', ins_b. destruct ((hd0 cmd =? 97)%N && (b <? e) && (b + 1 <=? ExDefs.slen st)) eqn:Ec; [|lia].
+          apply andb_prop in Ec. destruct Ec as (_ & Ec). apply Z.leb_le in Ec. lia. }
+        assert (He' : 0 <= e') by (unfold e', ins_e; destruct (hd0 cmd =? 99)%N; fold b'; lia).
+        match type of Hl5 with len_view _ _ ?n => set (n2 := n) in * end.
+        assert (Hn2 : 0 <= n2) by (unfold n2, ExDefs.slen, ExDefs.llen; lia).
+        rewrite (insert_body_ok rvalid rfind st mf bs bl s gbufs lblk bb be d Pf final_dist Hf m1 AR (VPtr bc 0) varg vtxt [VUndef] bc cmd VUndef []
+                   eq_refl eq_refl (final_old m1 bc _ AR Hcmd Nbc) Hncmd ltac:(lia) Hvt u' m5 n2 x5 G
+                   ltac:(unfold TrExAddr.int_ok in *; lia) ltac:(fold b'; unfold TrExAddr.int_ok in *; lia) He' Hfit Hn2 Hed He5 Hl5 Hx5).
+        reflexivity.
+    Qed.
   End Final.
 End Cmds.
 
@@ -615,3 +870,20 @@ Proof.
     | vm_compute; discriminate | vm_compute; intuition discriminate ]|]).
   apply Forall_nil.
 Qed.
+
+(* a / i / c run: `0a` on five lines inserts BEFORE the first line: lbuf_edit(xb, txt, 0, 0), xrow = 0 (fix e93d764); `2a`: lbuf_edit(xb, txt, 2, 2),
+   xrow = 2; `2,3c` with one line of text: lbuf_edit(xb, txt, 1, 3), xrow = 1; `2i`: lbuf_edit(xb, txt, 1, 1); `a` with an empty text block on the
+   empty buffer: lbuf_edit(xb, txt, 0, 0), xrow = 0, not -1 (fix 7b90d84); `7a` on five lines: rejected, no call.  txt is passed as it came. *)
+Lemma run_insert_examples :
+  let bl := length cglobals in
+  let txt := VPtr (S (S (S bl))) 0 in
+  let run lines newlen addr c := show (ec_insert_run (log_ext newlen []) 100 10 (VPtr (S bl) 0) (VPtr (S (S bl)) 0) (VInt 0) txt
+                                        (cmd_mem lines 0 addr [c] [120; 10]) (VInt 0)) (bl + 6) in
+  run 5 6 [48] 97 = Some (VInt 0, Some [VInt 0], [[VInt 3; VPtr bl 0; txt; VInt 0; VInt 0]]) /\
+  run 5 6 [50] 97 = Some (VInt 0, Some [VInt 2], [[VInt 3; VPtr bl 0; txt; VInt 2; VInt 2]]) /\
+  run 5 4 [50; 44; 51] 99 = Some (VInt 0, Some [VInt 1], [[VInt 3; VPtr bl 0; txt; VInt 1; VInt 3]]) /\
+  run 5 6 [50] 105 = Some (VInt 0, Some [VInt 1], [[VInt 3; VPtr bl 0; txt; VInt 1; VInt 1]]) /\
+  run 0 0 [] 97 = Some (VInt 0, Some [VInt 0], [[VInt 3; VPtr bl 0; txt; VInt 0; VInt 0]]) /\
+  run 0 1 [48] 97 = Some (VInt 0, Some [VInt 0], [[VInt 3; VPtr bl 0; txt; VInt 0; VInt 0]]) /\
+  run 5 5 [55] 97 = Some (VInt 1, Some [VInt 0], []).
+Proof. vm_compute. repeat split; reflexivity. Qed.
